@@ -94,6 +94,7 @@ type CallAs struct {
 }
 
 type GhostField struct {
+	Private bool // not affected by `modifies *` / unknown calls
 	Owner string // type expression text
 	OwnerT *TypeExpr
 	Name  string
@@ -361,6 +362,11 @@ func (cs *ContractSet) LoadContractFile(path, pkgPath string, trusted bool) erro
 			}
 			// ghost field Owner.name Type
 			parts := strings.Fields(rc.text)
+			private := false
+			if len(parts) > 0 && parts[0] == "private" {
+				private = true
+				parts = parts[1:]
+			}
 			if len(parts) < 3 || parts[0] != "field" {
 				return fail(rc.line, "expected: ghost field Owner.name Type")
 			}
@@ -376,7 +382,7 @@ func (cs *ContractSet) LoadContractFile(path, pkgPath string, trusted bool) erro
 			if err != nil {
 				return fail(rc.line, "%v", err)
 			}
-			cs.Ghosts = append(cs.Ghosts, &GhostField{Owner: parts[1][:j], OwnerT: ot, Name: parts[1][j+1:], T: ft, Pkg: pkgPath})
+			cs.Ghosts = append(cs.Ghosts, &GhostField{Private: private, Owner: parts[1][:j], OwnerT: ot, Name: parts[1][j+1:], T: ft, Pkg: pkgPath})
 		case "define", "uninterpreted":
 			d, err := parseDefine(rc.text, rc.kw == "uninterpreted")
 			if err != nil {
